@@ -17,6 +17,9 @@ Structural clauses decided (cardillo/solver/statics.py):
  R7 initial point of the arc-length path
                             the first returned point pairs the initial state (q0, la_c0, la_g0, la_N0) with the load parameter of
                             the vector the algorithm treats as the last converged point (self.xk), not with another load level
+ R8 iteration limits are loud
+                            a path-following loop that can end because a step limit is reached (`... and load_step <= self.max_load_steps`)
+                            says so: after the loop a warning / raise is guarded by that limit ("a run that stops early says so")
  R5 stored-row isolation    (K11, sa/alias.py) no returned point shares memory with a buffer that is modified in place after the
                             point was stored: "every point returned" is the point that was solved for
 """
@@ -45,6 +48,8 @@ def run(ctx):
     rep.rule("C23.R4", "loud early stop (C21 engine)", 2)
     rep.rule("C23.R5", "stored points are not modified after they were stored (may-alias analysis)", 1)
     alias.report(rep, "C23.R5", ctx.repo, [(ST, "Newton"), (ST, "Riks")])
+    rep.rule("C23.R8", "a static solver loop that can stop at a step limit warns or raises when it did", 1)
+    step_limit_loud(ctx)
     rep.rule("C23.R7", "Riks: state and load parameter of the first returned point belong to the same point (self.xk)", 1)
     riks_first_point(ctx)
     rep.rule("C23.R6", "every returned Newton load step has been solved at its own load level (index intervals)", 12)
@@ -170,6 +175,40 @@ def _resolve_ranges(fn, expr, depth=0):
                 out += r
         return out or None
     return None
+
+
+def step_limit_loud(ctx):
+    rep = ctx.rep
+    n = 0
+    for q in ("Riks.solve", "Newton.solve"):
+        fn = ctx.repo.get(ST, q)
+        C = f"{ST}:{q}"
+        for lp in [w for w in ast.walk(fn) if isinstance(w, ast.While)]:
+            limits = [c for c in ast.walk(lp.test) if isinstance(c, ast.Compare) and any("max" in (dotted(x) or "") for x in ast.walk(c) if isinstance(x, (ast.Name, ast.Attribute)))]
+            if not limits:
+                continue
+            n += 1
+            lim = limits[0]
+            counter = norm_src(lim.left)
+            bound = norm_src(lim.comparators[0])
+            # statements after the loop (same block) up to the return
+            par = getattr(lp, "_parent", None)
+            body = getattr(par, "body", [])
+            after = body[body.index(lp) + 1:] if lp in body else []
+            loud = False
+            for st in after:
+                if isinstance(st, ast.If) and counter in norm_src(st.test) and bound in norm_src(st.test):
+                    if any(isinstance(w, ast.Raise) or (isinstance(w, ast.Call) and (dotted(w.func) or "").split(".")[-1] == "warn") for w in ast.walk(st)):
+                        loud = True
+                if isinstance(st, ast.Assert) and counter in norm_src(st.test):
+                    loud = True
+            if loud:
+                rep.ok("C23.R8", C, f"loop bounded by `{norm_src(lim)}`: reaching the limit is reported after the loop")
+            else:
+                rep.bad("C23.R8", C, lim, f"the loop ends silently when `{norm_src(lim)}` becomes false: a run that is cut off by the step limit returns its points like a complete run "
+                        "(no warning, no error), although it stopped before the end of the requested load range", f"{ST}:{lp.lineno}")
+    if n < 1:
+        raise AnalysisError(f"{ST}: no step-limited loop found in the static solvers")
 
 
 def riks_first_point(ctx):
@@ -349,6 +388,10 @@ MUTANTS += [
 MUTANTS += [
     dict(id="c23-r7-orig", canary=True, what="Riks: first returned point labelled with la_arc0 (original defect)", file=ST,
          old="        la_arc = [self.xk[-1]]  # the initial state belongs to the load level of xk\n", new="        la_arc = [self.la_arc0]\n", expect="C23.R7"),
+]
+MUTANTS += [
+    dict(id="c23-r8-orig", canary=True, what="Riks returns silently when the step limit cuts the run (original defect)", file=ST,
+         old="        if load_step > self.max_load_steps:\n            warnings.warn(", new="        if False:\n            warnings.warn(", expect="C23.R8"),
 ]
 NEUTRAL = [
     dict(id="c23-n3", what="Riks: first load parameter written as the constant of xk", file=ST,
